@@ -72,7 +72,15 @@ def run(ctx):
     if f:
         for blk, t in ctx.find_calls(f, r"^darling_core::error::Error::multiple$"):
             ctx.requires("C07.who.multiple-nonempty", f, blk, "multiple(errors)", [("ne", r"^len\(.*\)$", 0)])
-    callers = sorted({b.key for b in nontest if not b.derived and ctx.find_calls(b, r"^darling_core::error::Error::multiple$")})
+    def home(b):
+        # a private helper with one call site counts as the function it was cut out of
+        for _ in range(2):
+            up = ctx.caller_of(b) if b.kind in ("Fn", "AssocFn") else None
+            if up is None:
+                break
+            b = up
+        return b.key
+    callers = sorted({home(b) for b in nontest if not b.derived and ctx.find_calls(b, r"^darling_core::error::Error::multiple$")})
     ctx.ob("C07.who.multiple-callers", "darling_core::error::Error::multiple", "callers",
            set(callers) <= {"darling_core::error::Accumulator::finish_with", "darling_core::error::Error::flatten"}, "called from %s" % callers)
     f = ctx.fn("darling_core::error::Error::at")
